@@ -106,7 +106,8 @@ def check(run):
                                4: "the shell attached after half-attached ones did not work"}, (),
                               "real Server over TLS with and without -one-shell: one to three half-attached shells (/i or /o alone) come and go, the listening "
                               "socket is probed with connect(2) after each, then a full shell attaches (/i+/o, /o+/i or /io), works and ends",
-                              key_fn=lambda i: json.dumps(i["before"]) + i["attach"] + str(i["one_shell"]))
+                              key_fn=lambda i: json.dumps(i["before"]) + i["attach"] + str(i["one_shell"]),
+                              confirm=lambda idxs: [(hone(k)[0] or [None])[0] for k in idxs])
     # event listeners which come and go (library use): shells live and die unheard, then somebody listens
     plans = [[0, 0], [1, 0], [2, 3], [0, 1], [600, 1]] if run.tier == "quick" else [[a, b] for a in (0, 1, 2, 5) for b in (0, 1, 4)] + [[600, 1], [1500, 600]]
     # capacity of each window's listener channel: EVChanLen, or 1 / 2 (such a listener reads only after its shell has gone: the pump must wait for it)
